@@ -3,9 +3,9 @@
 package vaxis
 
 // Yield point for property C03 (input loop). VerifC03Yield, when set, is called by
-// handleSequence with the name of the point: "cpr.flag-loaded" = a `CSI r;c R` report has found
-// the cursor-position request flag raised (atomicLoad) and has not yet withdrawn it or handed
-// the answer over. A verification harness uses it to hold the input goroutine there until
+// handleSequence with the name of the point: "cpr.flag-taken" = a `CSI r;c R` report has found
+// the cursor-position request flag raised and withdrawn it (one compare-and-swap) and has not
+// yet handed the answer over. A verification harness uses it to hold the input goroutine there until
 // CursorPosition's 50 ms timer has fired (the F12 schedule) and to check that the hand-off
 // then neither blocks nor leaks a stale answer. It changes no behaviour; without the build tag
 // verifC03 is an empty function.
